@@ -8,6 +8,7 @@
  * Usage:
  *   static vp_arr_t A;                       (static => zero initialised)
  *   vp_arr_init(&A, VP_ARR_BYTEWISE);        order used by seek()
+ *   A.kcap = 1; A.vcap = 1;                  optional: exact object sizes
  *   vp_arr_add(&A, kbytes, klen, vbytes, vlen);   append entries; the caller
  *       guarantees (VP_ASSUME) that they are strictly increasing in the
  *       chosen order -- vp_arr_sorted(&A) returns that condition;
@@ -60,8 +61,17 @@ typedef struct vp_arr_s {
   int status;                              /* returned by status() */
   size_t klen[VP_ARR_MAXN];
   size_t vlen[VP_ARR_MAXN];
-  uint8_t key[VP_ARR_MAXN][VP_ARR_MAXK];
-  uint8_t val[VP_ARR_MAXN][VP_ARR_MAXV > 0 ? VP_ARR_MAXV : 1];
+  /* every key and every value is its OWN small heap object (VP_ARR_MAXK /
+     VP_ARR_MAXV bytes, from vp_input): a read through a slice the unit holds
+     is then a byte extract from a 12-byte object, not from this whole struct
+     (measured: merger 2x2, 3 ops: 9 M clauses with in-struct storage) */
+  uint8_t *key[VP_ARR_MAXN];
+  uint8_t *val[VP_ARR_MAXN];
+  /* size of the objects allocated by vp_arr_add (set after vp_arr_init when
+     all keys/values are shorter; exact sizes are cheapest and make CBMC/ASan
+     flag any read past the end of a key) */
+  size_t kcap;                             /* default VP_ARR_MAXK */
+  size_t vcap;                             /* default VP_ARR_MAXV */
   /* ghost counters (monitors for the harness); written only by
      create/clear -- nothing in the hot path writes to the (large) array
      object, see the note on cost below */
